@@ -1194,12 +1194,13 @@ Qed.
        Z.abs v1 < 10 ^ p1 -> Z.abs v2 < 10 ^ p2 ->
        dec_cmp_core P m kd p1 s1 (Some v1) p2 s2 (Some v2) = Ok (Some (spec_dec_cmp s1 v1 s2 v2)) *)
 Lemma dec_cmp_correct_partial : forall P m kd p1 s1 v1 p2 s2 v2,
-  1 <= p1 <= maxprec kd -> 1 <= p2 <= maxprec kd -> -64 <= s1 <= p1 -> -64 <= s2 <= p2 ->
+  1 <= p1 <= maxprec kd -> 1 <= p2 <= maxprec kd -> s1 <= p1 -> s2 <= p2 ->
+  (bind_i8 P = true -> -64 <= s1 /\ -64 <= s2) ->
   Z.max (p1 - s1) (p2 - s2) + Z.max s1 s2 <= maxprec kd ->
   Z.abs v1 < 10 ^ p1 -> Z.abs v2 < 10 ^ p2 ->
   dec_cmp_core P m kd p1 s1 (Some v1) p2 s2 (Some v2) = Ok (Some (spec_dec_cmp s1 v1 s2 v2)).
 Proof.
-  intros P m kd p1 s1 v1 p2 s2 v2 Hp1 Hp2 Hs1 Hs2 Hn Hv1 Hv2. rewrite maxprec_maxp in *.
+  intros P m kd p1 s1 v1 p2 s2 v2 Hp1 Hp2 Hs1 Hs2 Hi8 Hn Hv1 Hv2. rewrite maxprec_maxp in *.
   assert (Hm : maxp kd <= 38) by (destruct kd; cbn; lia).
   set (N := Z.max (p1 - s1) (p2 - s2) + Z.max s1 s2) in *. set (S := Z.max s1 s2) in *.
   assert (Hmeta : exists np, dec_bind_meta P m kd p1 s1 p2 s2 = Ok (np, S) /\ p1 <= np <= maxp kd /\ p2 <= np /\
@@ -1207,9 +1208,10 @@ Proof.
   { unfold dec_bind_meta. destruct ((p1 =? p2) && (s1 =? s2)) eqn:E.
     - exists p1. assert (p1 = p2 /\ s1 = s2) as [-> ->] by lia. unfold S. rewrite Z.max_id.
       repeat split; try reflexivity; lia.
-    - exists N. destruct (bind_i8 P).
+    - exists N. destruct (bind_i8 P) eqn:Eb8.
       2:{ fold S. fold N. rewrite maxprec_maxp. replace (Z.max 1 (Z.min N (maxp kd))) with N by (unfold N, S in *; lia).
           repeat split; try reflexivity; unfold N, S in *; lia. }
+      destruct (Hi8 eq_refl) as [Hb1 Hb2].
       rewrite (arith_result_exact Native m Signed 8 (p1 - s1)); [|lia|apply signed_range; cbn; unfold N, S in *; lia].
       rewrite (arith_result_exact Native m Signed 8 (p2 - s2)); [|lia|apply signed_range; cbn; unfold N, S in *; lia].
       cbn [bind_out]. fold S. fold N.
@@ -1223,23 +1225,23 @@ Proof.
   rewrite (cast_side_ok kd p2 s2 np S v2) by (unfold S; lia). cbn [bind_out]. reflexivity.
 Qed.
 
-Definition P_found : cparams := {| bind_i8 := true; u64_prec := 19; wide128 := false |}.
-Definition P_repaired : cparams := {| bind_i8 := false; u64_prec := 20; wide128 := true |}.
+Definition P_old : cparams := {| bind_i8 := true; u64_prec := 19; wide128 := false |}.
+Definition P_current : cparams := {| bind_i8 := false; u64_prec := 20; wide128 := true |}.
 
 Lemma dec_cmp_refuted :
-  dec_cmp_core P_found Debug D64 18 0 (Some 1) 18 18 (Some (5 * 10 ^ 17)) = Err /\ spec_dec_cmp 0 1 18 (5 * 10 ^ 17) = Gt /\
-  dec_cmp_core P_found Debug D128 38 0 (Some 1) 38 38 (Some (5 * 10 ^ 37)) = Err /\
-  dec_cmp_core P_found Debug D128 38 (-100) None 5 2 (Some 50) = Panic /\ dec_cmp_core P_found Release D128 38 (-100) None 5 2 (Some 50) = Err /\
-  dec_cmp_core P_found Debug D128 18 0 (Some 1) 19 18 (Some (5 * 10 ^ 17)) = Ok (Some Gt).
+  dec_cmp_core P_old Debug D64 18 0 (Some 1) 18 18 (Some (5 * 10 ^ 17)) = Err /\ spec_dec_cmp 0 1 18 (5 * 10 ^ 17) = Gt /\
+  dec_cmp_core P_old Debug D128 38 0 (Some 1) 38 38 (Some (5 * 10 ^ 37)) = Err /\
+  dec_cmp_core P_old Debug D128 38 (-100) None 5 2 (Some 50) = Panic /\ dec_cmp_core P_old Release D128 38 (-100) None 5 2 (Some 50) = Err /\
+  dec_cmp_core P_old Debug D128 18 0 (Some 1) 19 18 (Some (5 * 10 ^ 17)) = Ok (Some Gt).
 Proof. vm_compute. repeat split; reflexivity. Qed.
 
 Lemma dec_cmp_examples :
-  dec_cmp_core P_found Debug D64 10 2 (Some 150) 4 1 (Some 15) = Ok (Some Eq) /\
-  dec_cmp_core P_found Debug D64 10 2 (Some 150) 10 2 (Some 15) = Ok (Some Gt) /\
-  dec_cmp_core P_found Debug D64 10 2 (Some 15) 10 1 (Some 15) = Ok (Some Lt) /\
-  dec_cmp_core P_found Debug D128 10 2 (Some (-150)) 20 1 (Some (-15)) = Ok (Some Eq) /\
-  dec_cmp_core P_found Debug D64 10 (-2) (Some 1) 10 2 (Some 10000) = Ok (Some Eq) /\
-  dec_cmp_core P_found Debug D64 10 2 None 4 1 (Some 15) = Ok None.
+  dec_cmp_core P_old Debug D64 10 2 (Some 150) 4 1 (Some 15) = Ok (Some Eq) /\
+  dec_cmp_core P_old Debug D64 10 2 (Some 150) 10 2 (Some 15) = Ok (Some Gt) /\
+  dec_cmp_core P_old Debug D64 10 2 (Some 15) 10 1 (Some 15) = Ok (Some Lt) /\
+  dec_cmp_core P_old Debug D128 10 2 (Some (-150)) 20 1 (Some (-15)) = Ok (Some Eq) /\
+  dec_cmp_core P_old Debug D64 10 (-2) (Some 1) 10 2 (Some 10000) = Ok (Some Eq) /\
+  dec_cmp_core P_old Debug D64 10 2 None 4 1 (Some 15) = Ok None.
 Proof. vm_compute. repeat split; reflexivity. Qed.
 
 (* ---- mixed operands: every resolution that stays in decimals is exact *)
@@ -1295,23 +1297,23 @@ Proof.
 Qed.
 
 (* with the wide casts every decimal ~ integer comparison stays in decimals *)
-Lemma exact_path_repaired : forall l r, exact_path P_repaired l r =
+Lemma exact_path_current : forall l r, exact_path P_current l r =
   match l, r with OpDec _ _ _ _, OpDec _ _ _ _ | OpDec _ _ _ _, OpInt _ _ _ | OpInt _ _ _, OpDec _ _ _ _ => true | _, _ => false end.
-Proof. intros l r. destruct l, r; cbn [exact_path P_repaired wide128]; try reflexivity; rewrite orb_true_r; reflexivity. Qed.
+Proof. intros l r. destruct l, r; cbn [exact_path P_current wide128]; try reflexivity; rewrite orb_true_r; reflexivity. Qed.
 
 (* Int64 against a Decimal64: both sides go through Float64 and integers beyond 2^53 that differ compare equal;
    UInt64 of 20 digits against a Decimal128: the cast to decimal(19,0) fails *)
 Lemma cmp_mixed_refuted :
-  impl_cmp_mixed P_found Debug (OpInt Signed 64 (Some 9007199254740993)) (OpDec D64 18 0 (Some 9007199254740992)) = Ok (Some Eq) /\
+  impl_cmp_mixed P_old Debug (OpInt Signed 64 (Some 9007199254740993)) (OpDec D64 18 0 (Some 9007199254740992)) = Ok (Some Eq) /\
   spec_cmp_mixed (OpInt Signed 64 (Some 9007199254740993)) (OpDec D64 18 0 (Some 9007199254740992)) = Ok (Some Gt) /\
-  impl_cmp_mixed P_found Debug (OpDec D128 20 2 (Some 150)) (OpInt Unsigned 64 (Some 18446744073709551615)) = Err /\
+  impl_cmp_mixed P_old Debug (OpDec D128 20 2 (Some 150)) (OpInt Unsigned 64 (Some 18446744073709551615)) = Err /\
   spec_cmp_mixed (OpDec D128 20 2 (Some 150)) (OpInt Unsigned 64 (Some 18446744073709551615)) = Ok (Some Lt) /\
-  impl_cmp_mixed P_found Debug (OpInt Unsigned 64 (Some 5)) (OpDec D64 10 2 (Some 500)) = Err /\
+  impl_cmp_mixed P_old Debug (OpInt Unsigned 64 (Some 5)) (OpDec D64 10 2 (Some 500)) = Err /\
   (* the same operands with the repaired variants *)
-  impl_cmp_mixed P_repaired Debug (OpInt Signed 64 (Some 9007199254740993)) (OpDec D64 18 0 (Some 9007199254740992)) = Ok (Some Gt) /\
-  impl_cmp_mixed P_repaired Debug (OpDec D128 20 2 (Some 150)) (OpInt Unsigned 64 (Some 18446744073709551615)) = Ok (Some Lt) /\
-  impl_cmp_mixed P_repaired Debug (OpInt Unsigned 64 (Some 5)) (OpDec D64 10 2 (Some 500)) = Ok (Some Eq) /\
-  dec_cmp_core P_repaired Debug D128 38 (-100) None 5 2 (Some 50) = Err.
+  impl_cmp_mixed P_current Debug (OpInt Signed 64 (Some 9007199254740993)) (OpDec D64 18 0 (Some 9007199254740992)) = Ok (Some Gt) /\
+  impl_cmp_mixed P_current Debug (OpDec D128 20 2 (Some 150)) (OpInt Unsigned 64 (Some 18446744073709551615)) = Ok (Some Lt) /\
+  impl_cmp_mixed P_current Debug (OpInt Unsigned 64 (Some 5)) (OpDec D64 10 2 (Some 500)) = Ok (Some Eq) /\
+  dec_cmp_core P_current Debug D128 38 (-100) None 5 2 (Some 50) = Err.
 Proof. vm_compute. repeat split; reflexivity. Qed.
 
 Lemma cmp_results_spec : forall c,
@@ -1324,8 +1326,62 @@ Proof. intros c. destruct c; reflexivity. Qed.
 
 Example dec_cmp_hyps_sat : 1 <= 10 <= maxprec D64 /\ 1 <= 4 <= maxprec D64 /\ -64 <= 2 <= 10 /\ -64 <= 1 <= 4 /\
   Z.max (10 - 2) (4 - 1) + Z.max 2 1 <= maxprec D64 /\ Z.abs 150 < 10 ^ 10 /\ Z.abs 15 < 10 ^ 4 /\
-  exact_path P_found (OpDec D64 10 2 (Some 150)) (OpInt Signed 32 (Some 2)) = true.
+  exact_path P_old (OpDec D64 10 2 (Some 150)) (OpInt Signed 32 (Some 2)) = true.
 Proof. vm_compute. repeat split; discriminate. Qed.
+
+(* ---- the current source (3e3b1e8ef, 2085adc17, 2b7187fb9): P_current *)
+Lemma cast_side_no_panic : forall kd p s np ns v, cast_side kd p s np ns v <> Panic.
+Proof.
+  intros kd p s np ns v. unfold cast_side, checked. destruct ((p =? np) && (s =? ns)); [discriminate|].
+  destruct (in_range Signed 8 (s - ns)); cbn [bind_out]; [|discriminate].
+  destruct (in_range Signed (prim_bits kd) (10 ^ Z.abs (s - ns))); cbn [bind_out]; [|discriminate].
+  destruct v as [x|]; [|discriminate].
+  pose proof (round_val_no_panic kd np (s - ns) (10 ^ Z.abs (s - ns)) x) as H.
+  destruct (round_val kd np (s - ns) (10 ^ Z.abs (s - ns)) x); cbn [bind_out]; try discriminate. contradiction.
+Qed.
+
+Lemma dec_cmp_never_panics : forall P m kd p1 s1 v1 p2 s2 v2, bind_i8 P = false ->
+  dec_cmp_core P m kd p1 s1 v1 p2 s2 v2 <> Panic.
+Proof.
+  intros P m kd p1 s1 v1 p2 s2 v2 Hb. unfold dec_cmp_core, dec_bind_meta. rewrite Hb.
+  destruct ((p1 =? p2) && (s1 =? s2)); cbn [bind_out].
+  - pose proof (cast_side_no_panic kd p1 s1 p1 s1 v1) as H1. destruct (cast_side kd p1 s1 p1 s1 v1); cbn [bind_out]; try discriminate; [|contradiction].
+    pose proof (cast_side_no_panic kd p2 s2 p1 s1 v2) as H2. destruct (cast_side kd p2 s2 p1 s1 v2); cbn [bind_out]; try discriminate. contradiction.
+  - set (np := Z.max 1 (Z.min (Z.max (p1 - s1) (p2 - s2) + Z.max s1 s2) (maxprec kd))). set (ns := Z.max s1 s2).
+    pose proof (cast_side_no_panic kd p1 s1 np ns v1) as H1. destruct (cast_side kd p1 s1 np ns v1); cbn [bind_out]; try discriminate; [|contradiction].
+    pose proof (cast_side_no_panic kd p2 s2 np ns v2) as H2. destruct (cast_side kd p2 s2 np ns v2); cbn [bind_out]; try discriminate. contradiction.
+Qed.
+
+Lemma dec_cmp_current_correct_partial : forall m kd p1 s1 v1 p2 s2 v2,
+  1 <= p1 <= maxprec kd -> 1 <= p2 <= maxprec kd -> s1 <= p1 -> s2 <= p2 ->
+  Z.max (p1 - s1) (p2 - s2) + Z.max s1 s2 <= maxprec kd ->
+  Z.abs v1 < 10 ^ p1 -> Z.abs v2 < 10 ^ p2 ->
+  dec_cmp_core P_current m kd p1 s1 (Some v1) p2 s2 (Some v2) = Ok (Some (spec_dec_cmp s1 v1 s2 v2)).
+Proof.
+  intros. apply dec_cmp_correct_partial; try assumption. cbn [P_current bind_i8]. discriminate.
+Qed.
+
+Definition no_float (l r : cop) : bool :=
+  match l, r with OpDec _ _ _ _, OpDec _ _ _ _ | OpDec _ _ _ _, OpInt _ _ _ | OpInt _ _ _, OpDec _ _ _ _ => true | _, _ => false end.
+
+(* a decimal against a decimal or an integer of any width, either order: never a wrong answer *)
+Lemma cmp_mixed_current_sound : forall m l r c, no_float l r = true ->
+  impl_cmp_mixed P_current m l r = Ok (Some c) -> spec_cmp_mixed l r = Ok (Some c).
+Proof.
+  intros m l r c Hn H. apply (cmp_mixed_sound P_current m); [|assumption].
+  rewrite exact_path_current. exact Hn.
+Qed.
+
+(* what remains: the common precision is clamped and the rescaled value does not fit -- an error *)
+Lemma dec_cmp_current_refuted :
+  dec_cmp_core P_current Debug D64 18 0 (Some 1) 18 18 (Some (5 * 10 ^ 17)) = Err /\ spec_dec_cmp 0 1 18 (5 * 10 ^ 17) = Gt /\
+  dec_cmp_core P_current Debug D128 38 0 (Some 1) 38 38 (Some (5 * 10 ^ 37)) = Err /\
+  dec_cmp_core P_current Debug D128 18 0 (Some 1) 19 18 (Some (5 * 10 ^ 17)) = Ok (Some Gt) /\
+  dec_cmp_core P_current Debug D128 38 (-100) None 5 2 (Some 50) = Err.
+Proof. vm_compute. repeat split; reflexivity. Qed.
+
+Lemma src_cmp_is_repaired : decbind_i8 = Some 0 /\ u64_dec_precision = Some 20 /\ wide_dec128 = Some 1.
+Proof. repeat split; reflexivity. Qed.
 
 (* ------------------------------------------------------------------ which variant the source has *)
 Definition style_of (k : Z) : style := if k =? 0 then Checked else Native.
